@@ -1091,6 +1091,8 @@ func Main(wide bool) {
 				fmt.Println(RunJourney(l)) // executed on a real Conn with real callers over a scripted transport
 			} else if len(w) > 0 && w[0] == "ex" {
 				fmt.Println(RunExec(l)) // executed on a real Conn: the program points of exec as scheduling points
+			} else if len(w) > 0 && w[0] == "ev" {
+				fmt.Println(RunEv(l)) // executed on a real Conn: EVENT frames between responses while a handler is held
 			} else if len(w) > 0 && w[0] == "hb" {
 				fmt.Println(RunBeat(l)) // executed on a real controlConn: close() against the heartbeat loop
 			} else if len(w) > 0 && (w[0] == "cf" || w[0] == "cfk") {
